@@ -32,6 +32,7 @@ func init() {
 	kinds[0x0203] = runRecvAbs
 	kinds[0x0204] = runResync
 	kinds[0x0501] = runRecvAbs
+	kinds[0x0502] = runRecvAbs
 	props["C05"] = genC05
 }
 
@@ -257,6 +258,13 @@ func c05Filter(code int) fsutil.FilterFunc {
 //	diff is done, then completed one by one in the k-th pseudo-random order
 //
 // output: (walkedA reqs notifs final err)
+// kind 0502 = kind 0501 through the REAL fsutil.Send / fsutil.Receive: same input, same output;
+// the source listing B is served by a synthetic fsutil.FS (MemFS: the stats exactly as given),
+// the receiver runs with NotifyHashed and a ContentHasher over the same header whose Sum is
+// SLOW (the digest of a file must be final when its notification is delivered, however long the
+// caller's hash takes).  An input is marked as 0502 by a seventh element (#1).
+func c05IsE2E(in Sx) bool { return len(in.L) > 6 && in.L[6].IsTrue() }
+
 func runRecvAbs(in Sx) (out Sx) {
 	type res struct{ v Sx }
 	done := make(chan res, 1)
@@ -326,7 +334,15 @@ func recvAbs(ctx context.Context, in Sx) Sx {
 	if mode == 0 {
 		lower = walked
 	}
-	reqs, notifs, failed, hang := c05Sync(ctx, dest, lower, listB, contentB, differ, order, c05Filter(filter))
+	var reqs []string
+	var notifs []Sx
+	var failed bool
+	var hang string
+	if c05IsE2E(in) {
+		reqs, notifs, failed, hang = c05SyncE2E(ctx, dest, Bl, differ, mode == 1, c05Filter(filter))
+	} else {
+		reqs, notifs, failed, hang = c05Sync(ctx, dest, lower, listB, contentB, differ, order, c05Filter(filter))
+	}
 	if hang != "" {
 		return L(N(0xffff), S(hang))
 	}
@@ -506,6 +522,116 @@ func c05Sync(ctx context.Context, dest string, lower, listB []*types.Stat, conte
 	return reqs, notifs, failed, ""
 }
 
+// slowHash: the transparent hash with a Sum that takes its time
+type slowHash struct{ idHash }
+
+func (h *slowHash) Sum(b []byte) []byte {
+	time.Sleep(2 * time.Millisecond)
+	return h.idHash.Sum(b)
+}
+
+// c05TreeOf builds the tree value of a flat listing (path order, ancestor-closed).
+func c05TreeOf(es []flatEntry) []*MNode {
+	root := &MNode{}
+	byPath := map[string]*MNode{"": root}
+	for _, e := range es {
+		dir, name := "", e.St.Path
+		if i := strings.LastIndexByte(e.St.Path, '/'); i >= 0 {
+			dir, name = e.St.Path[:i], e.St.Path[i+1:]
+		}
+		parent := byPath[dir]
+		if parent == nil {
+			parent = root // malformed listing: keep the entry at the top (the receiver will reject the stream)
+			name = e.St.Path
+		}
+		n := &MNode{Name: name, Stat: e.St.CloneVT(), Content: e.Content}
+		parent.Kids = append(parent.Kids, n)
+		byPath[e.St.Path] = n
+	}
+	return root.Kids
+}
+
+// c05SyncE2E: ONE synchronisation of the listing Bl into dest through the real Send and Receive
+// over an in-memory stream.
+func c05SyncE2E(ctx context.Context, dest string, Bl []flatEntry, differ int, merge bool, filter fsutil.FilterFunc) (reqs []string, notifs []Sx, failed bool, hang string) {
+	tctx, cancel := context.WithCancel(ctx)
+	defer cancel()
+	sp := NewStreamPair(tctx, 16)
+	var mu sync.Mutex
+	opt := fsutil.ReceiveOpt{Merge: merge, Differ: fsutil.DiffType(differ), Filter: filter,
+		ContentHasher: func(st *types.Stat) (hash.Hash, error) {
+			h := &slowHash{}
+			h.Write(c05Header(st))
+			return h, nil
+		},
+		NotifyHashed: func(k fsutil.ChangeKind, p string, fi os.FileInfo, err error) error {
+			var rec Sx
+			if fi == nil {
+				rec = L(NI(int(k)), S(p))
+			} else {
+				st, _ := fi.Sys().(*types.Stat)
+				dg := []byte{}
+				if d, ok := fi.(digester); ok {
+					s := string(d.Digest())
+					if i := strings.IndexByte(s, ':'); i >= 0 {
+						s = s[i+1:]
+					}
+					dg, _ = hex.DecodeString(s)
+				}
+				rec = L(NI(int(k)), S(p), StatSx(st), B(dg))
+			}
+			mu.Lock()
+			notifs = append(notifs, rec)
+			mu.Unlock()
+			return nil
+		},
+	}
+	src := &MemFS{Roots: c05TreeOf(Bl)}
+	sdone := make(chan error, 1)
+	rdone := make(chan error, 1)
+	go func() {
+		err := fsutil.Send(tctx, sp.A, src, nil)
+		sp.A.CloseSend()
+		sdone <- err
+	}()
+	go func() { rdone <- fsutil.Receive(tctx, sp.B, dest, opt) }()
+	timer := time.After(12 * time.Second)
+	var sOK, rOK bool
+	for !(sOK && rOK) {
+		select {
+		case err := <-sdone:
+			sOK = true
+			if err != nil {
+				failed = true
+				sp.TearDown(nil)
+			}
+		case err := <-rdone:
+			rOK = true
+			if err != nil {
+				failed = true
+				sp.TearDown(nil)
+			}
+		case <-timer:
+			sp.TearDown(nil)
+			cancel()
+			return nil, nil, true, "hang in Send/Receive"
+		}
+	}
+	for _, lp := range sp.Log() {
+		if lp.From == "r" && lp.P.Type == types.PACKET_REQ {
+			if int(lp.P.ID) < len(Bl) {
+				reqs = append(reqs, Bl[lp.P.ID].St.Path)
+			} else {
+				reqs = append(reqs, "?")
+			}
+		}
+	}
+	mu.Lock()
+	defer mu.Unlock()
+	sort.Slice(reqs, func(a, b int) bool { return fsutil.ComparePath(reqs[a], reqs[b]) < 0 })
+	return reqs, notifs, failed, ""
+}
+
 // kind 0204 (C02): TWO synchronisations of the same source listing B into a destination that
 // starts as A.  input (differ order A B); the first uses the case's differ, the second
 // DiffMetadata.  output (walked1 failed1 walked2 reqs2 notifs2 failed2): the destination as
@@ -655,7 +781,7 @@ func genRecvCases(g *Gen, kind uint64, n int, directedRelink bool) {
 	for i := 0; i < n; i++ {
 		o := TreeOpts{MaxEntries: 3 + r.Intn(12), MaxDepth: 1 + r.Intn(3), Types: r.Chance(60), HardLinks: r.Chance(35),
 			Owners: r.Chance(50), Names: names, BigFiles: r.Chance(5)}
-		xattrs := kind == 0x0501 && r.Chance(40)
+		xattrs := (kind == 0x0501 || kind == 0x0502) && r.Chance(40)
 		o.Xattrs = xattrs
 		va := GenView(r, o)
 		var vb []*MNode
@@ -679,7 +805,7 @@ func genRecvCases(g *Gen, kind uint64, n int, directedRelink bool) {
 			cls = "from-empty"
 		}
 		c05StripX(va)
-		if kind != 0x0501 || !xattrs {
+		if !xattrs {
 			c05StripX(vb) // kind 0501: the source entries may carry xattrs (the header hashed covers them)
 		}
 		A, Bl := flattenView(va), flattenView(vb)
@@ -777,11 +903,18 @@ func genRecvCases(g *Gen, kind uint64, n int, directedRelink bool) {
 			continue
 		}
 		in := L(NI(differ), NI(mode), N(order), entriesSx(A), entriesSx(Bl))
-		if kind == 0x0501 && r.Chance(25) {
+		if (kind == 0x0501 || kind == 0x0502) && r.Chance(25) {
 			// the receiver's Filter (differ + DiskWriter): the disk gets the rewritten stat, the
 			// notification and the hashed header keep the stat as sent
 			in = L(NI(differ), NI(mode), N(order), entriesSx(A), entriesSx(Bl), NI(1+r.Intn(6)))
 			cls += "+filter"
+		}
+		if kind == 0x0502 {
+			f := 0
+			if len(in.L) > 5 {
+				f = in.L[5].Int()
+			}
+			in = L(NI(differ), NI(mode), N(0), entriesSx(A), entriesSx(Bl), NI(f), Bool(true))
 		}
 		out := runRecvAbs(in)
 		if len(out.L) == 2 && out.L[0].Kind == 'n' && out.L[0].U64() == 0xfffe {
@@ -808,6 +941,9 @@ func c05EmitCaseF(g *Gen, kind uint64, differ, mode int, order uint64, filter in
 	in := L(NI(differ), NI(mode), N(order), entriesSx(A), entriesSx(Bl))
 	if filter != 0 {
 		in = L(NI(differ), NI(mode), N(order), entriesSx(A), entriesSx(Bl), NI(filter))
+	}
+	if kind == 0x0502 {
+		in = L(NI(differ), NI(mode), N(0), entriesSx(A), entriesSx(Bl), NI(filter), Bool(true))
 	}
 	out := runRecvAbs(in)
 	if len(out.L) == 2 && out.L[0].Kind == 'n' && out.L[0].U64() == 0xfffe {
@@ -1258,4 +1394,9 @@ func genC05(g *Gen) {
 	c05DirReplaced(g)
 	c05LinkMeta(g, 0x0501)
 	genRecvCases(g, 0x0501, g.Vol(700, 12000), true)
+	// the same through the real Send/Receive (kind 0502)
+	c05SpecialLinks(g, func(A, Bl []flatEntry, cls string) {
+		c05EmitCase(g, 0x0502, 0, 0, 0, c02CloneEntries(A), c02CloneEntries(Bl), cls)
+	})
+	genRecvCases(g, 0x0502, g.Vol(300, 5000), false)
 }
